@@ -1,2 +1,173 @@
-(* placeholder while the pipeline is brought up; replaced by the theorems *)
-From Verif Require Import c03.Spec.
+(* C03 — property theorems only.  Each is closed by [exact] of a lemma from
+   Proofs_*.v and followed by Print Assumptions. *)
+From Coq Require Import List ZArith Bool Arith Lia.
+From Verif Require Import lib.Wire c03.Int64 c03.Model c03.Spec c03.Witness
+     c03.Proofs_Int64 c03.Proofs_Base.
+Import ListNotations.
+Local Open Scope Z_scope.
+
+(* checkMemory's overflow-checked int64 arithmetic (addInt64WithOverflow,
+   mulInt64WithOverflow, big.Int fallback) decides exactly
+     mem + rsvp <= floor(limit * (1 + prio) / 256)
+   for every int64 limit, usage, size and priority; a MaxInt64 limit is never
+   checked (DESIGN 9 item 13) *)
+Theorem c03_check_memory_spec : forall lim u rsvp prio,
+  0 <= l_mem lim <= max_int64 -> 0 <= mem u <= max_int64 -> 0 <= rsvp <= max_int64 -> 0 <= prio <= 255 ->
+  check_memory lim u rsvp prio =
+    if l_mem lim =? max_int64 then None
+    else if mem u + rsvp <=? mem_threshold (l_mem lim) prio then None else Some ELimit.
+Proof. exact check_memory_spec_l. Qed.
+Print Assumptions c03_check_memory_spec.
+
+(* "A reservation either takes effect in every scope that constrains it or
+   fails and changes nothing": for ANY list of distinct scopes (the scope, its
+   owners, its edges), any kind of reservation, any limits and any usage,
+   reserve-locally-then-for-edges with the undo of the charged prefix
+   (charge_list) ends in one of two states:
+     success: every listed scope is open and has exactly the vector added,
+              every other scope is untouched;
+     refusal: every counter of every scope is what it was before.
+   In both cases every scope still satisfies 0 <= usage <= limit. *)
+Theorem c03_reservation_all_or_nothing : forall l k m,
+  kind_ok k -> all_good m -> NoDup l ->
+  (forall t, In t l -> mem (use_of m t) + mem (kdelta k) <= max_int64) ->
+  let '(m', e) := charge_list l [] k m in
+  (forall x, shape_of m' x = shape_of m x) /\ all_good m' /\
+  match e with
+  | None => all_live m l /\
+            forall x, use_of m' x = if in_dec sid_dec x l then stat_add (use_of m x) (kdelta k) else use_of m x
+  | Some _ => forall x, use_of m' x = use_of m x
+  end.
+Proof. exact charge_list_top. Qed.
+Print Assumptions c03_reservation_all_or_nothing.
+
+(* a successful reservation in one scope respects that scope's limit, scaled
+   by priority for memory *)
+Theorem c03_reserve_within_limit : forall k lim u u',
+  kind_ok k -> lim_ok lim -> nonneg u -> fits lim u -> mem u + mem (kdelta k) <= max_int64 ->
+  rc_reserve k lim u = inl u' ->
+  u' = stat_add u (kdelta k) /\ fits lim u' /\ nonneg u'.
+Proof. exact rc_reserve_ok. Qed.
+Print Assumptions c03_reserve_within_limit.
+
+Theorem c03_memory_priority_threshold : forall lim u sz prio u',
+  lim_ok lim -> nonneg u -> fits lim u -> 0 <= sz <= max_int64 -> 0 <= prio <= 255 ->
+  mem u + sz <= max_int64 ->
+  reserve_memory lim u sz prio = inl u' ->
+  u' = stat_add u (mem_vec sz) /\
+  (l_mem lim = max_int64 \/ mem u + sz <= mem_threshold (l_mem lim) prio).
+Proof. exact reserve_memory_ok. Qed.
+Print Assumptions c03_memory_priority_threshold.
+
+(* releases (ReleaseMemory, Release*ForChild, the release part of Done) over
+   any list of scopes never make a counter negative, never grow one, keep
+   every scope within its limit, and touch no scope outside the list *)
+Theorem c03_release_monotone : forall l k m, kind_ok k -> all_good m ->
+  (forall x, shape_of (uncharge_list l k m) x = shape_of m x) /\
+  all_good (uncharge_list l k m) /\
+  (forall x, stat_le (use_of (uncharge_list l k m) x) (use_of m x)) /\
+  (forall x, ~ In x l -> use_of (uncharge_list l k m) x = use_of m x).
+Proof. exact uncharge_list_mono. Qed.
+Print Assumptions c03_release_monotone.
+
+(* ... and when every listed scope is open and holds at least the vector, the
+   release subtracts it exactly once from each *)
+Theorem c03_release_exact : forall l k m, kind_ok k -> all_good m -> NoDup l -> all_live m l ->
+  (forall t, In t l -> stat_le (kdelta k) (use_of m t)) ->
+  (forall x, shape_of (uncharge_list l k m) x = shape_of m x) /\
+  all_good (uncharge_list l k m) /\
+  (forall x, use_of (uncharge_list l k m) x =
+             if in_dec sid_dec x l then stat_sub (use_of m x) (kdelta k) else use_of m x).
+Proof. exact uncharge_list_exact. Qed.
+Print Assumptions c03_release_exact.
+
+(* ---- the full statements that are FALSE of the code, with witnesses ----------------------- *)
+(* Full statement: for every well-formed configuration and every history in
+   which callers behave, the monitor accepts the model's trace.  The model
+   transcribes gc/IsUnused, openConnection's allow-list retry and
+   transferAllowedToStandard literally, and three histories refute it; each
+   is a finding on the real code (known_findings/C03.json). *)
+Definition full_statement : Prop :=
+  forall c ops, config_wf c = true ->
+    callers_run c astate0 [] 0 (model_trace c (init_state c) ops) = None ->
+    mon_run c astate0 [] 0 (model_trace c (init_state c) ops) = [].
+
+Lemma refute_by : forall c ops d, config_wf c = true ->
+  callers_run c astate0 [] 0 (model_trace c (init_state c) ops) = None ->
+  mon_run c astate0 [] 0 (model_trace c (init_state c) ops) = d -> d <> [] -> ~ full_statement.
+Proof. intros c ops d W C M D F. apply D. rewrite <- M. apply F; assumption. Qed.
+
+(* IsUnused ignores memory: gc() closes a peer scope that still holds a View
+   reservation; system memory reads 0 while 300 bytes are held *)
+Theorem c03_gc_memory_refuted : ~ full_statement /\
+  mon_run gc_cfg astate0 [] 0 (model_trace gc_cfg (init_state gc_cfg) gc_ops)
+  = [ERR_PROPERTY; 1; CL_USAGE; 0; 0; 0; 300; 0; 0; 0; 0; 0; 0; 0; 0; 0; 0; 0; -1; 2].
+Proof.
+  assert (E : mon_run gc_cfg astate0 [] 0 (model_trace gc_cfg (init_state gc_cfg) gc_ops)
+              = [ERR_PROPERTY; 1; CL_USAGE; 0; 0; 0; 300; 0; 0; 0; 0; 0; 0; 0; 0; 0; 0; 0; -1; 2])
+    by (vm_compute; reflexivity).
+  split; [|exact E].
+  apply (refute_by gc_cfg gc_ops _ ltac:(vm_compute; reflexivity) ltac:(vm_compute; reflexivity) E). discriminate.
+Qed.
+Print Assumptions c03_gc_memory_refuted.
+
+(* the allow-list retry drops the conn-limiter count: three connections from a
+   /24 whose explicit prefix cap is 2 are open at once *)
+Theorem c03_allowlist_cap_refuted : ~ full_statement /\
+  mon_run al_cfg astate0 [] 0 (model_trace al_cfg (init_state al_cfg) al_ops)
+  = [ERR_PROPERTY; 2; CL_CAP; 1; 9; 2; 0; -1; 0].
+Proof.
+  assert (E : mon_run al_cfg astate0 [] 0 (model_trace al_cfg (init_state al_cfg) al_ops)
+              = [ERR_PROPERTY; 2; CL_CAP; 1; 9; 2; 0; -1; 0]) by (vm_compute; reflexivity).
+  split; [|exact E].
+  apply (refute_by al_cfg al_ops _ ltac:(vm_compute; reflexivity) ltac:(vm_compute; reflexivity) E). discriminate.
+Qed.
+Print Assumptions c03_allowlist_cap_refuted.
+
+(* a refused transferAllowedToStandard leaves the connection without edges; a
+   second SetPeer is accepted and charges the peer scope only: system does not
+   count the connection *)
+Theorem c03_setpeer_retry_refuted : ~ full_statement /\
+  mon_run retry_cfg astate0 [] 0 (model_trace retry_cfg (init_state retry_cfg) retry_ops)
+  = [ERR_PROPERTY; 2; CL_USAGE; 0; 0; 0; 0; 0; 0; 1; 0; 1; 0; 0; 0; 0; 0; 0; -1; 3].
+Proof.
+  assert (E : mon_run retry_cfg astate0 [] 0 (model_trace retry_cfg (init_state retry_cfg) retry_ops)
+              = [ERR_PROPERTY; 2; CL_USAGE; 0; 0; 0; 0; 0; 0; 1; 0; 1; 0; 0; 0; 0; 0; 0; -1; 3])
+    by (vm_compute; reflexivity).
+  split; [|exact E].
+  apply (refute_by retry_cfg retry_ops _ ltac:(vm_compute; reflexivity) ltac:(vm_compute; reflexivity) E). discriminate.
+Qed.
+Print Assumptions c03_setpeer_retry_refuted.
+
+(* ---- non-vacuity ------------------------------------------------------------------------------ *)
+(* the hypotheses of the theorems are met by reachable non-trivial states: a
+   history through every kind of operation (connection with memory attached to
+   a peer, stream with protocol and service, nested spans, a refusal at an
+   inner edge that is undone, a zero-byte reservation refused by the priority
+   scaling, an owner closed under its spans, View reservations, gc with
+   references held, repeated Done) is accepted by the monitor, with the error
+   classes shown *)
+Example tour_accepted :
+  mon_run tour_cfg astate0 [] 0 (model_trace tour_cfg (init_state tour_cfg) tour_ops) = [] /\
+  callers_run tour_cfg astate0 [] 0 (model_trace tour_cfg (init_state tour_cfg) tour_ops) = None /\
+  map (fun x => o_cls (snd x)) (model_trace tour_cfg (init_state tour_cfg) tour_ops)
+  = [0; 0; 0; 0; 0; 0; 0; 0; 0; 1; 0; 1; 0; 2; 0; 0; 0; 0; 0; 0; 0; 0; 0; 0; 0; 0].
+Proof. vm_compute. repeat split. Qed.
+
+(* the monitor rejects a trace in which a refused reservation left a charge behind *)
+Example monitor_rejects_leftover :
+  mon_run base_cfg astate0 [] 0
+    [(OReserve System 10 255, mkObs 1 0 [mkEntry System (mkStat 10 0 0 0 0 0) 1 0])] <> [].
+Proof. vm_compute. discriminate. Qed.
+
+(* ... and one in which a connection is charged to transient but not to system *)
+Example monitor_rejects_missing_edge :
+  mon_run base_cfg astate0 [] 0
+    [(OOpenConn 0 true false None,
+      mkObs 0 0 [mkEntry (Conn 0) (mkStat 0 0 0 1 0 0) 0 0; mkEntry Transient (mkStat 0 0 0 1 0 0) 2 0])] <> [].
+Proof. vm_compute. discriminate. Qed.
+
+(* ... and a limit refusal that no scope justifies *)
+Example monitor_rejects_unjustified_refusal :
+  mon_run base_cfg astate0 [] 0 [(OReserve System 10 255, mkObs 1 0 [])] <> [].
+Proof. vm_compute. discriminate. Qed.
